@@ -19,6 +19,7 @@ import (
 	"encoding/json"
 	"flag"
 	"fmt"
+	"iter"
 	"os"
 	"runtime"
 	"sort"
@@ -53,6 +54,8 @@ type meth struct {
 
 var sink atomic.Int64
 
+var heldSeq sync.Map // *kv -> iter.Seq2[int,int]
+
 func methods() []meth {
 	return []meth{
 		{"Get", func(s *kv, i int) { v, _ := s.Get(i % 4); sink.Add(int64(v)) }},
@@ -72,6 +75,17 @@ func methods() []meth {
 		{"Map", func(s *kv, i int) { s.Map(func(m mapz.KV[int, int]) { m[i%4] = i; delete(m, (i+2)%4) }) }},
 		{"All", func(s *kv, i int) {
 			for _, v := range s.All() {
+				sink.Add(int64(v))
+			}
+		}},
+		// an iterator handle obtained ONCE (when the pair starts) and ranged again and
+		// again while the other side runs: All() must not have captured anything
+		{"AllHeld", func(s *kv, i int) {
+			h, ok := heldSeq.Load(s)
+			if !ok {
+				h, _ = heldSeq.LoadOrStore(s, s.All())
+			}
+			for _, v := range h.(iter.Seq2[int, int]) {
 				sink.Add(int64(v))
 			}
 		}},
